@@ -311,6 +311,7 @@ def run(ctx, tier, seed, shard, nshards):
               nontrivial=nontrivial, exclude=exclude)
     if shard == 0:
         structural(ctx)
+        constructor_cases(ctx)
         for case in multi_base_matrix():
             D.run_one(ctx, case, judge, exclude=exclude, nontrivial=nontrivial)
         ctx.count("multi_base_matrix_cells", 7 * 64)
@@ -331,6 +332,88 @@ def run(ctx, tier, seed, shard, nshards):
             D.run_one(ctx, case, judge, exclude=exclude, nontrivial=lambda *a: True)
             n += 1
         ctx.count("invariant_order_matrix_cells", n)
+
+
+def constructor_cases(ctx, only=None):
+    """Constructors do not take part in the combination: a sub-class' __init__ / __new__ is checked against its OWN
+    contracts only, whatever its function object is called (plain def, alias of another function, lambda-free closure from
+    a decorator that does not preserve the name)."""
+    import icontract
+
+    log = []
+
+    def nowraps(fn):
+        def inner(*a, **kw):
+            return fn(*a, **kw)
+        return inner
+
+    def cond(tag, pred):
+        def c(x):
+            log.append(tag)
+            return pred(x)
+        return c
+
+    for what in ("__init__", "__new__"):
+        for variant in ("plain", "alias", "no-wraps decorator"):
+            for own in ("none", "tightened"):
+                if only and only != [what, variant, own]:
+                    continue
+                del log[:]
+                base_pre, base_post = cond("base-pre", lambda x: x > 0), cond("base-post", lambda x: x > 0)
+                own_pre = cond("own-pre", lambda x: x > 10)
+                if what == "__init__":
+                    def base_ctor(self, x):
+                        log.append("base-body")
+
+                    def sub_ctor(self, x):
+                        log.append("sub-body")
+                else:
+                    def base_ctor(cls, x):
+                        log.append("base-body")
+                        return object.__new__(cls)
+
+                    def sub_ctor(cls, x):
+                        log.append("sub-body")
+                        return object.__new__(cls)
+                base_ctor.__name__ = what
+                sub_ctor.__name__ = what if variant == "plain" else "_construct"
+                Base = type(icontract.DBC)("Base", (icontract.DBC,), {
+                    what: icontract.require(base_pre)(icontract.ensure(base_post)(base_ctor))})
+                f = sub_ctor
+                if own == "tightened":
+                    f = icontract.require(own_pre)(f)
+                if variant == "no-wraps decorator":
+                    f = nowraps(f)
+                ns = {what: f}
+                if variant == "alias":
+                    ns["_construct"] = f
+                try:
+                    Sub = type(icontract.DBC)("Sub", (Base,), ns)
+                except BaseException as e:  # noqa
+                    ctx.fail("constructor|%s|%s|definition" % (what, variant), {"constructor_case": [what, variant, own]},
+                             "defining Sub(Base) with %s as %s failed: %r" % (what, variant, e))
+                    continue
+                label = "%s of the sub-class: %s, own contracts: %s" % (what, variant, own)
+                for arg in (-1, 5, 50):
+                    del log[:]
+                    try:
+                        Sub(arg)
+                        got = "constructed"
+                    except icontract.ViolationError:
+                        got = "violation"
+                    except BaseException as e:  # noqa
+                        got = "%s: %s" % (type(e).__name__, e)
+                    accepted = own == "none" or arg > 10
+                    # (a contract above a decorator that hides it from the class body is still the function's own)
+                    want_log = (["own-pre"] if own == "tightened" else []) + (["sub-body"] if accepted else [])
+                    want = "constructed" if accepted else "violation"
+                    ctx.case(["constructor", what, variant, own, arg], True, sample={"directed": label, "argument": arg, "outcome": got})
+                    ctx.count("directed:constructor-cases")
+                    if got != want or log != want_log:
+                        ctx.fail("constructor|%s|%s|%s" % (what, variant, own), {"constructor_case": [what, variant, own]},
+                                 "%s, Sub(%d): expected %s evaluating %r (the base constructor's contracts are not inherited), "
+                                 "got %s evaluating %r" % (label, arg, want, want_log, got, log))
+                        break
 
 
 def structural(ctx):
@@ -380,6 +463,11 @@ def structural(ctx):
 
 
 def replay(ctx, case):
+    if case.get("constructor_case"):
+        before = ctx.evaluations
+        constructor_cases(ctx, only=case["constructor_case"])
+        ctx.evaluations = before + 1
+        return
     if case.get("directed"):
         return structural(ctx)
     ctx.divert_known_shapes_on_replay = False  # D24 is recorded under this property: its reproducer is judged here
